@@ -20,7 +20,8 @@ struct op { char kind[8]; int n, blk, lck, ws; };
 struct prog { char name[16]; int nops; struct op ops[MAXOPS]; };
 static struct prog P[8]; static int np;
 static struct cds_wfs_stack stk;
-static struct cds_wfs_node nodes[MAXN];
+#include "place.h"
+static struct cds_wfs_node *nodes;	/* node n1 starts exactly at a 4 GiB boundary (place.h) */
 static int pushed[MAXN], popped[MAXN];
 
 static int node_id(struct cds_wfs_node *n, const char *what)
@@ -126,6 +127,7 @@ int main(int argc, char **argv)
 	vrt_name_val(NULL, "NULL"); vrt_name_val(CDS_WFS_END, "END");
 	cds_wfs_init(&stk);
 	vrt_name(&stk.head, VK_PTR, "s1.head"); vrt_name_mutex(&stk.lock, "s1.lock");
+	nodes = place_at_boundary(sizeof *nodes, MAXN, 0x300000000UL);
 	for (int k = 0; k < MAXN; k++) { cds_wfs_node_init(&nodes[k]); vrt_name(&nodes[k].next, VK_PTR, "n%d.next", k); vrt_name_val(&nodes[k], "n%d", k); }
 	for (int k = 0; k < np; k++) vrt_spawn(P[k].name, runner, &P[k]);
 	vrt_run(&o);
